@@ -112,6 +112,11 @@ def pair_walk(cin, cout, pairs, problems, depth=0):
       pair_walk(a, b, pairs, problems, depth + 1)
 
 
+def contains(root, x) -> bool:
+  """x is (by identity) one of the objects reachable from root."""
+  return any(y is x for y in reachable(root))
+
+
 def created_objects(result, input_ids):
   out = {}
   def walk(x):
